@@ -368,9 +368,11 @@ func check(t h.TB, c Case) {
 	if err != nil {
 		t.Fatalf("harness: %v", err)
 	}
+	// the empty edit script: every template of this family round-trips on the pinned tree (no
+	// exclusion in any run), so a failure here is reported rather than excluded — an exclusion
+	// would hide exactly the regressions that re-attach comments (lesson of section 3 of DESIGN.md)
 	if un, err := printFile(f, false, k.imports); err != nil || !bytes.Equal(un, src) {
-		h.Exclude("the unedited file does not round-trip (property C01 / an open finding of it)")
-		return
+		h.Fail(t, sub, c, "the unedited file is not reproduced (comments are attached differently already before any edit): %v %s\n--- printed ---\n%s", err, oracle.FirstDiffLine(src, un), un)
 	}
 	f, _ = parse()
 	lists := k.lists(f)
